@@ -9,7 +9,8 @@ F_POT = 'atsim/potentials/tools/potable/__init__.py'
 F_Q = 'atsim/potentials/tools/potable/_query_actions.py'
 import contracts.overrides as OVc
 import contracts.rawparser as RPc
-FUNCTIONS = [(F_CP, 'ConfigParser._init_config_parser'), (F_CP, '_RawConfigParser.has_option')]
+import contracts.potable_cli as CLIc
+FUNCTIONS = [(F_CP, 'ConfigParser._init_config_parser'), (F_CP, '_RawConfigParser.has_option'), (F_POT, '_create_override_tuple'), (F_POT, '_make_config_parser')]
 
 def lemmas():
     out = []
@@ -44,12 +45,8 @@ def lemmas():
     for m in ('__setitem__', '__getitem__', '__delitem__'):
         out.append(S('C14', F_CP, '_ConfigParserDict.' + m, 'uses-the-normal-form', ['key = self._key_transform(key)']))
     out.append(S('C14', F_CP, '_RawConfigParser.options', 'length-of-a-section-counts-own-keys-only', ['return list(self._sections[section].keys())\n except KeyError:']))
-    # CLI: later override of the same key wins, removals after overrides, additions kept in order
-    out.append(S('C14', F_POT, '_make_config_parser', 'cli-merge',
-                 ['override_dict = collections.OrderedDict()', 'k = (over_tuple.section, over_tuple.key)', 'override_dict[k] = over_tuple', 'over_tuple = _create_override_tuple(override, False)',
-                  'overrides_list = list(override_dict.values())', 'additional_list.append(over_tuple)', 'cp = ConfigParser(cfg_file, overrides=overrides_list, additional=additional_list)']))
-    out.append(S('C14', F_POT, '_create_override_tuple', 'SECTION:KEY=VALUE', ["section, key = key.split(':', 1)", "key, value = key.split('=', 1)", 'value = None',
-                                                                                'retval = ConfigParserOverrideTuple(section=section, key=key, value=value)']))
+    # CLI: _create_override_tuple and _make_config_parser are under Engine A contracts (contracts/potable_cli.py): each edit handed to ConfigParser is the last
+    # one the command line gives for its item (a removal wins over an override), no edited item is lost, additions are kept in command line order
     # --list-items: parsed sections, orphan sections and [Variables], each once
     out.append(S('C14', F_Q, '_list_items', 'every-section-once',
                  ["if 'pair' in parsed_sections:", "if 'potential_form' in parsed_sections:", "if 'tabulation' in parsed_sections:", "if 'eam_embed' in parsed_sections:",
@@ -67,6 +64,15 @@ MUTANTS = [
     (F_CP, 'ConfigParser._init_config_parser', "if not cp.has_section(override.section):", "if cp.has_section(override.section):", 'call-pre'),
     (F_CP, 'ConfigParser._init_config_parser', "cp[override.section][override.key] = override.value\n    return cp", "cp[override.section][override.value] = override.key\n    return cp", 'preserve/1'),
     (F_CP, 'ConfigParser._init_config_parser', "raise ConfigParserException(e.message)", "raise ValueError(e.message)", 'raises'),
+    (F_POT, '_create_override_tuple', "section, key = key.split(':', 1)", "key, section = key.split(':', 1)", 'post'),
+    (F_POT, '_create_override_tuple', "key, value = key.split('=', 1)", "value, key = key.split('=', 1)", 'post'),
+    (F_POT, '_create_override_tuple', 'if has_value:', 'if not has_value:', 'post'),
+    (F_POT, '_make_config_parser', "over_tuple = _create_override_tuple(override, False)", "over_tuple = _create_override_tuple(override)", 'preserve/1'),
+    (F_POT, '_make_config_parser', "k = (over_tuple.section, over_tuple.key)\n            override_dict[k] = over_tuple\n    if not remove is None:", "k = (over_tuple.section, over_tuple.section)\n            override_dict[k] = over_tuple\n    if not remove is None:", 'preserve/0'),
+    (F_POT, '_make_config_parser', "additional_list.append(over_tuple)", "additional_list.insert(0, over_tuple)", 'preserve/2'),
+    (F_POT, '_make_config_parser', "additional=additional_list)", "additional=[])", 'post'),
+    (F_POT, '_make_config_parser', "overrides=overrides_list,", "overrides=overrides_list[:-1],", 'post'),
+    (F_POT, '_make_config_parser', "if not remove is None:", "if remove is None:", 'post'),
 ]
 MODULE_MUTANTS = [
     (F_CP, "    option = option.strip().replace(' ', '').replace('\\t', '')\n", "    option = option.strip()\n", 'one-normal-form'),
@@ -77,7 +83,10 @@ MODULE_MUTANTS = [
 ENGINE_B_FUNCTIONS = [(F_CP, 'ConfigParser._init_config_parser'), (F_CP, '_RawConfigParser.optionxform'), (F_CP, '_RawConfigParser.has_option'), (F_CP, '_ConfigParserDict._key_transform'),
                       (F_POT, '_make_config_parser'), (F_POT, '_create_override_tuple'), (F_Q, '_list_items'), (F_Q, '_list_section')]
 ASSUMPTIONS = ['A5: configparser section proxies store through dict_type.__setitem__, remove_option/remove_section/add_section as documented',
-               'the edit fold is decided on the normalised source of _init_config_parser (structural) and on the real code by the oracle (bounded); a general loop-invariant proof over the configparser ADT is not attempted in this version']
+               'the edit fold is the Engine A contract of _init_config_parser over the A5 model of the parser state (contracts/overrides.py); that handing on only the last edit per item, removals after overrides, '
+               'yields the same file as applying every command line edit in order is argued in DESIGN 9.6, not proved (an induction over two folds); the oracle drives repeated and mixed edits of one item',
+               'command line items are of the form SECTION:KEY[=VALUE] (precondition of _create_override_tuple; a malformed item ends in ValueError: the TODO in the source, outside the stated property)',
+               'A4: itertools.chain.from_iterable, list(dict.values()), collections.OrderedDict as documented (insertion order of first assignment)']
 BOUNDED = [dict(name='tabulation with overrides/additions/removals == tabulation of the hand-edited file (CLI and API), --list-items lists every item once', bound='seeded pair models, 1..3 operations with whitespace/tab variants of the keys, with and without [Variables]; quick 40 / thorough 2000', technique='concrete oracle')]
 
 def oracle_payload(tier, seed, mode='search'): return dict(mode=mode, seed=seed, n=40 if tier == 'quick' else 2000)
